@@ -303,6 +303,9 @@ func (bc *boundsChecker) checkCall(rule string, fn *ssa.Function, a *Arith, site
 }
 
 func fnFullName(fn *ssa.Function) string {
+	if o := fn.Origin(); o != nil && o != fn {
+		return fnFullName(o) // an instance of a generic function is named like the generic (slices.Sort)
+	}
 	if fn.Pkg == nil {
 		if o := fn.Object(); o != nil && o.Pkg() != nil {
 			return o.Pkg().Path() + "." + fn.Name()
